@@ -27,7 +27,7 @@ LV(d, f, l, ci, co, cb) == [dist |-> d, fiber |-> f, lineic |-> l, con_in |-> ci
 BlankLV == LV(B, "", B, B, B, "")
 Dist(i) == <<Num(505, 1), Num(8, -1), Num(6125, 2), Num(101, 0)>>[i]
 EastV(v, i) == IF v = 1 THEN LV(B, "", B, Num(5, 1), B, "")
-               ELSE LV(Dist(i), "SSMF", Num(21, 2), Num(5, 1), Num(4, 1), IF i = 1 THEN "c1" ELSE "c2")
+               ELSE LV(Dist(i), "SSMF", Num(21, 2), Num(5, 1), IF i = 2 THEN Num(0, 0) ELSE Num(4, 1), IF i = 1 THEN "c1" ELSE "c2")
 WestV(v, i) == CASE v = 0 -> BlankLV
                  [] v = 1 -> LV(Dist(((i + 1) % 4) + 1), "NZDF", Num(23, 2), Num(3, 1), B, "w1")
                  [] v = 2 -> LV(B, "", Num(19, 2), Num(25, 2), B, "")
@@ -38,6 +38,8 @@ AmpA == AV("std_medium_gain", Num(185, 1), Num(-15, 1), Num(-5, 1), Num(1, 0), N
 AmpF == AV("fused", B, B, B, B, B)
 AmpN == AV("", B, B, B, B, B)
 AmpC == AV("std_low_gain", B, Num(1, 0), B, Num(25, 2), B)
+\* settings that are exactly 0 are settings, not blanks (the design would choose other values on its own)
+AmpZ == AV("std_medium_gain", Num(21, 0), Num(0, 0), Num(0, 0), Num(0, 0), Num(0, 0))
 Row(a, z, e, w) == [a |-> a, z |-> z, east |-> e, west |-> w]
 NeighSeq(sh, c) == Cat([i \in 1..Len(sh) |-> IF sh[i][1] = c THEN <<sh[i][2]>> ELSE IF sh[i][2] = c THEN <<sh[i][1]>> ELSE <<>>])
 EqptOf(sh, p) ==
@@ -45,13 +47,13 @@ EqptOf(sh, p) ==
       first == sh[1]
       last == sh[n]
       amps == <<AmpA, AmpF, AmpC>>
-      wamps == <<AmpN, AmpC, AmpA>>
+      wamps == <<AmpZ, AmpC, AmpA>>
       na == NeighSeq(sh, "a")
   IN CASE p = 0 -> <<>>
        [] p = 1 -> <<Row(first[1], first[2], AmpA, AmpN)>>
        [] p = 2 -> [k \in 1..Len(na) |-> Row("a", na[k], amps[k], wamps[k])]
        [] p = 3 -> <<Row(last[2], last[1], AmpF, AmpC)>>
-       [] p = 4 -> <<Row(first[2], first[1], AmpC, AmpF), Row(last[1], last[2], AmpN, AmpA)>>
+       [] p = 4 -> <<Row(first[2], first[1], AmpC, AmpF), Row(last[1], last[2], AmpZ, AmpA)>>
 \* (link-value variant, Eqpt pattern, Roadms row?) combinations
 Combos == {<<0, 0, FALSE>>, <<1, 1, TRUE>>, <<2, 2, TRUE>>, <<0, 3, FALSE>>, <<1, 4, FALSE>>, <<2, 0, FALSE>>, <<0, 2, FALSE>>}
 TypeChoices(sh, c) == IF Deg(sh, c) = 2 THEN {"ROADM", "ILA", "FUSED", "other"} ELSE {"ROADM", "ILA", "other"}
@@ -109,7 +111,7 @@ ServiceSheets(mid) ==
    <<Svc("r1", "a", "c", "", Num(75, 0), Num(3, 0), Num(8, -1), <<>>, <<mid>>, "no", Num(2, -2)),
      Svc("r2", "c", "a", "mode 2", Num(375, 1), Num(-15, 1), B, <<"r1">>, <<mid>>, "yes", B)>>,
    <<Svc("1", "a", "c", "mode 1", Num(5, -1), Num(125, 2), Num(76, 0), <<"2", "3">>, <<>>, "", Num(4, -2)),
-     Svc("2", "c", "a", "", Num(625, 1), B, B, <<>>, <<>>, "Yes", Num(1, -2)),
+     Svc("2", "c", "a", "", Num(625, 1), B, B, <<"1">>, <<>>, "Yes", Num(1, -2)),
      Svc("3", "a", mid, "mode 1", Num(5, -1), Num(0, 0), B, <<"1">>, <<>>, "no", Num(1, -2))>>}
 ServiceWorkbooks0 ==
   {Mk(Shapes[s], f, combo, svc) : s \in {2, 4}, f \in {[a |-> "ROADM", b |-> "ROADM", c |-> "ROADM"]},
